@@ -206,6 +206,7 @@ QueryArgClauses(T, prev, ev, post) ==
             [] ev.q = "next_operation"      -> IF hasNext THEN ev.out = "ok" /\ ev.res = <<ev.j, s.nxt[ev.j]>>
                                                ELSE ev.out # "ok"
     IN If(~good, {Tag("C05:query", ev.q)})
+  \cup If(~good /\ "after_reject" \in DOMAIN ev, {Tag("C09:query-differs-after-a-rejected-request", ev.q)})
   \cup If(post.core # prev.core \/ post.cache # prev.cache, {C("C05:query-changed-state")})
 
 FilterClauses(T, prev, ev, post) ==
@@ -512,12 +513,15 @@ PlotClauses(T, prev, ev, post) ==
                             : m \in DOMAIN sch}
              axisEnd == IF ev.req_xlim # 0 THEN ev.req_xlim ELSE MakespanDef(I, sch)
          IN If(~SameBag(legJobs, present), {C("C20:legend-jobs")})
+       \cup If(\E a, b \in DOMAIN ev.legend : a # b /\ ev.legend[a][2] = ev.legend[b][2], {C("C20:two-jobs-share-a-colour")})
        \cup If(Rng(ev.bars) # want \/ Len(ev.bars) # NumScheduled(sch), {C("C20:bars")})
        \cup If(axisEnd > 0 /\ (ev.xlim_lo # 0 \/ ev.xlim_hi # axisEnd \/ ev.last_tick # axisEnd), {C("C20:time-axis")})
 FramesClauses(T, prev, ev, post) ==
     IF ev.out # "ok" THEN {Tag("C20:animation-raised", ev.out)}
     ELSE   If(Len(ev.ks) # ev.n, {Tag("C20:frame-count", ev.n)})
       \cup If(Len(ev.ks) = ev.n /\ ev.ks # [i \in 1..ev.n |-> i], {Tag("C20:frame-order", ev.n)})
+      \cup If("axis_ends" \in DOMAIN ev /\ \E i \in DOMAIN ev.axis_ends : ev.axis_ends[i] # ev.final_makespan,
+              {Tag("C20:frame-time-axis", ev.n)})
 
 CreateOrGetCondClauses(T, prev, ev, post) ==
     LET P(x) == x.t = ev.cls /\ "f" \in DOMAIN x /\ Rng(ev.need) \subseteq DOMAIN x.f
@@ -542,6 +546,11 @@ TransformClauses(T, prev, ev, post) ==
 KindsOf(kinds, subs) == [i \in DOMAIN subs |-> IF subs[i] = 0 THEN "other" ELSE kinds[subs[i]]]
 
 CreateClauses(T, prev, ev, post) ==
+    IF "detached" \in DOMAIN ev
+    THEN \* constructed with subscribe=False: never subscribed, whatever else is there
+            If(ev.out # "ok", {C("C10:create-refused")})
+       \cup If(post.subs # prev.subs, {C("C10:detached-observer-was-subscribed")})
+    ELSE
     LET conflict == SingletonConflict(KindsOf(T.kinds, prev.subs), ev.k)
         ok == ev.out = "ok"
     IN If(ok /\ conflict, {C("C10:singleton-accepted")})
@@ -565,9 +574,18 @@ CreateOrGetClauses(T, prev, ev, post) ==
 (* with it (the recorder omits a post-state identical to the previous one)    *)
 DClauses(T, l, prev, post) ==
     LET ev == T.events[l] IN
+    \* the operators below are only defined on states that mention operations/jobs/machines of the
+    \* instance: a logged state that does not is reported as such (for the property being checked, and C01)
+    IF "core" \in DOMAIN post /\ (~WellTypedState(T.inst, post.core)
+                                   \/ (l > 1 /\ "core" \in DOMAIN prev /\ ~WellTypedState(T.inst, prev.core)))
+    THEN {C("C01:logged-state-malformed"), C(T.owner \o ":logged-state-malformed")} ELSE
     IF l = 1 THEN (IF ev.a = "Init" THEN InitClauses(T, ev, post)
                    ELSE IF ev.a = "GenInit" THEN {} ELSE {C("M:first-event-not-init")})
     ELSE CASE ev.a = "Dispatch"    -> DispatchClauses(T, prev, ev, post)
+                                       \cup (IF T.events[l - 1].a \in {"Dispatch", "EnvStep"} /\ T.events[l - 1].out # "ok"
+                                                 /\ ev.out = "ok" /\ ValidRequest(T.inst, prev.core, ev.j, ev.p, ev.m)
+                                                 /\ post.core # DispatchNext(T.inst, prev.core, ev.j, ev.m)
+                                             THEN {C("C09:valid-request-after-a-rejected-one-misbehaves")} ELSE {})
            [] ev.a = "Reset"       -> ResetClauses(T, prev, ev, post)
            [] ev.a = "Query"       -> QueryClauses(T, prev, ev, post)
            [] ev.a = "QueryArg"    -> QueryArgClauses(T, prev, ev, post)
